@@ -86,14 +86,19 @@ def gen_cases(ctx, env, n):
             # pressure times an area, a pressure is a force over an area - and connected to nothing else.  Between themselves
             # they convert; towards newtons and pascals there is nothing to go by, and the answer is ConversionNotFound (in
             # finite time)
-            frc, prs = "zqc07mutF", "zqc07mutP"
+            frc, prs = rng.choice([("zqc07mutF", "zqc07mutP"), ("zqc07ringF", "zqc07ringP")])   # a pair, or two members of a ring of three
+            third = frc == "zqc07ringF" and rng.random() < 0.5
             side = rng.choice([["u", frc], ["mul", ["u", prs], ["pow", ["u", "meter"], 2]], ["u", prs], ["div", ["u", frc], ["pow", ["u", "meter"], 2]]])
             force_like = side in (["u", frc], ["mul", ["u", prs], ["pow", ["u", "meter"], 2]])
             other = rng.choice([["u", "newton"], ["mul", ["u", "kilogram"], ["div", ["u", "meter"], ["pow", ["u", "second"], 2]]], ["u", "pound-force"]]) if force_like \
                 else rng.choice([["u", "pascal"], ["div", ["u", "newton"], ["pow", ["u", "meter"], 2]], ["u", "atmosphere" if "atmosphere" in pools.units else "pascal"]])
+            if third:
+                # the third member of the ring: an energy that is the pressure times a volume
+                side = rng.choice([["u", "zqc07ringE"], ["mul", ["u", prs], ["pow", ["u", "meter"], 3]], ["mul", ["u", frc], ["u", "meter"]]])
+                other = rng.choice([["u", "joule"], ["mul", ["u", "newton"], ["u", "meter"]], ["u", "calorie" if "calorie" in pools.units else "joule"]])
             st, tt = (side, other) if rng.random() < 0.5 else (other, side)
             cls = "all-disconnected"
-            shape = ("declared-in-terms-of-one-another", force_like, str(other)[:24], st is side)
+            shape = ("declared-in-terms-of-one-another", frc, third, force_like, str(other)[:24], st is side)
         elif r < 0.9:
             # product-defined units of the user's own, one declared with a Decimal number and one with a float (the
             # registry then holds ratios of both kinds), meeting on one side of a conversion that a third, unconnected
@@ -167,7 +172,13 @@ def run(ctx):
              ["declare", ["u", "zqc07heave"], ["d", "1.5"], joule_t],
              ["define", "zqc07mutF", "zqc07mutF", ["dimname", "force"]], ["define", "zqc07mutP", "zqc07mutP", ["dimname", "pressure"]],
              ["declare", ["u", "zqc07mutF"], ["i", 1], ["mul", ["u", "zqc07mutP"], ["pow", ["u", "meter"], 2]]],
-             ["declare", ["u", "zqc07mutP"], ["i", 1], ["div", ["u", "zqc07mutF"], ["pow", ["u", "meter"], 2]]]]
+             ["declare", ["u", "zqc07mutP"], ["i", 1], ["div", ["u", "zqc07mutF"], ["pow", ["u", "meter"], 2]]],
+             # a ring of three: P = F / m², F = E / m, E = P m³ (all true, none tied to anything else)
+             ["define", "zqc07ringF", "zqc07ringF", ["dimname", "force"]], ["define", "zqc07ringP", "zqc07ringP", ["dimname", "pressure"]],
+             ["define", "zqc07ringE", "zqc07ringE", ["dimname", "energy"]],
+             ["declare", ["u", "zqc07ringP"], ["i", 1], ["div", ["u", "zqc07ringF"], ["pow", ["u", "meter"], 2]]],
+             ["declare", ["u", "zqc07ringF"], ["i", 1], ["div", ["u", "zqc07ringE"], ["u", "meter"]]],
+             ["declare", ["u", "zqc07ringE"], ["i", 1], ["mul", ["u", "zqc07ringP"], ["pow", ["u", "meter"], 3]]]]
     # refused declarations (zero-sized or self equivalences raise and must equate nothing) are part of the
     # history: afterwards the same impossible conversions must still fail with ConversionNotFound only
     by_dim = {}
